@@ -136,6 +136,7 @@ def h_mpg(ex, calls, ctx='app'):
             ex.claim('mpg.delivered_once_intact', hit is not None, {'at': name, 'group': g['i'], 'L': g['L']})
             if hit is not None:
                 rest.remove(hit)
+    ex.claim('mpg.frame_handlers_return', all(s.node.hung is None for s in st.values()), {'hung': [s.node.hung for s in st.values() if s.node.hung]})
     ex.claim('job_threads_alive', all(s.alive() for s in st.values()), {'dead': [repr(s.node.dead) for s in st.values() if s.node.dead]})
     ex.observe('frames', [[f['id'], f['data']] for f in frames])
     ex.witness()
